@@ -186,13 +186,15 @@ def post_iter(I, op, lab, check_noise=True, wrong=None):
         key = s["rt"]
         ok = isinstance(noise, list) and len(noise) == 2
         if ok:
-            for gate_cls, n_ in zip(reversed(op.fields["operations"]), noise):
-                # _find_wrapped_noise runs over op.unwrap() = reversed(operations)
+            for gate_cls, n_ in zip(op.fields["operations"], noise):
+                # noise[i] belongs to operations[i] (listed order): that is how OneQubitGateWrapper.unwrap() attaches it
+                # (taken from the wrapper's own convention, not from _noisy_gates; a contract that followed unwrap()'s
+                #  reversed order would have encoded the defect repaired by 0c39693)
                 if inm.get((key, gate_cls.name)):
                     ok = ok and n_ is ent.get((key, gate_cls.name))
                 else:
                     ok = ok and _is_nonoise(n_)
-        rec(eng, f"{lab}.post.noise-follows-the-map", bool(ok), "wrapper noise list is not [map[type(g)] or NoNoise() for g in op.unwrap()]")
+        rec(eng, f"{lab}.post.noise-follows-the-map", bool(ok), "wrapper noise list is not [map[g] or NoNoise() for g in op.operations] (listed order)")
         return
     controlled = name in CS.TWO or name in CS.CLASSICAL
     key = (s["ct"] + s["tt"]) if controlled else s["rt"]
